@@ -68,12 +68,20 @@ func allTriggers() []string {
 	return t
 }
 
+// every moment has a critical probe in the negative-weight pass and one in the non-negative pass
+// of its callback; the model knows moments, not weights: the two probes of one moment are one item
+const negSuffix = "-10"
+
 func workflowYAML() string {
 	var b strings.Builder
 	b.WriteString("name: " + wfName + "\ndefaults:\n  deploy_timeout: 2s\nroles:\n")
 	b.WriteString("  - name: \"t1\"\n    task:\n      load: " + taskClass + "\n")
 	for _, tr := range allTriggers() {
 		fmt.Fprintf(&b, "  - name: \"h_%s\"\n    call:\n      func: verif.Probe(\"%s\")\n      trigger: %s\n      timeout: 5s\n      critical: true\n", tr, tr, tr)
+		if tr != "DESTROY" {
+			// the same moment in the negative-weight pass of the callback
+			fmt.Fprintf(&b, "  - name: \"hn_%s\"\n    call:\n      func: verif.Probe(\"%s%s\")\n      trigger: %s%s\n      timeout: 5s\n      critical: true\n", tr, tr, negSuffix, tr, negSuffix)
+		}
 	}
 	return b.String()
 }
@@ -109,6 +117,8 @@ type world struct {
 	threads  map[uint64]int // goroutine id -> caller index
 	cmdGate  chan struct{}  // when set, the next task command blocks on it (after being recorded)
 	cmdSeen  chan struct{}
+	// moment (and environment) whose negative-weight probe was the last probe / task command recorded
+	negPending string
 }
 
 func goid() uint64 {
@@ -157,6 +167,9 @@ func (w *world) add(it item) {
 		return
 	}
 	it.Th = -1
+	if it.Kind == "B" {
+		w.negPending = ""
+	}
 	if it.Kind == "E" {
 		if idx, ok := w.threads[goid()]; ok {
 			it.Th = idx
@@ -228,6 +241,18 @@ func newWorld(tag string) (*world, error) {
 	w := &world{failBody: map[string]bool{}, failMode: simcore.CmdErrSource, threads: map[uint64]int{}}
 	w.rec = vplugin.NewRecorder()
 	w.rec.OnStart = func(id string, vars map[string]string) {
+		base, neg := strings.CutSuffix(id, negSuffix)
+		w.mu.Lock()
+		skip := !neg && w.negPending == base+"@"+vars["environment_id"]
+		w.negPending = ""
+		if neg {
+			w.negPending = base + "@" + vars["environment_id"]
+		}
+		w.mu.Unlock()
+		if skip {
+			return // the non-negative pass of the moment whose negative pass was just recorded
+		}
+		id = base
 		w.add(item{Kind: "H", Name: id, EnvId: vars["environment_id"]})
 	}
 	s, err := simcore.New(simcore.Options{
